@@ -238,12 +238,29 @@ fn r3(t: &mut Tape, prog: &mut Prog) -> bool {
             }
         }
     }
+    // ... or the condition of a top-level filter (item index usize::MAX)
+    for (si, st) in prog.main.steps.iter().enumerate() {
+        if let Step::Filter(e) = st {
+            let mut ok = !e.has_window();
+            e.walk(&mut |x| {
+                if matches!(x, Expr::Call { .. } | Expr::FStr(_) | Expr::Param(..)) {
+                    ok = false
+                }
+            });
+            if ok && e.depth() >= 1 {
+                sites.push((si, usize::MAX));
+            }
+        }
+    }
     if sites.is_empty() {
         return false;
     }
     let (si, ii) = sites[t.choose(sites.len())];
-    let (Step::Derive(items) | Step::Select(items)) = &mut prog.main.steps[si] else { return false };
-    let expr = items[ii].expr.clone();
+    let expr = match &prog.main.steps[si] {
+        Step::Derive(items) | Step::Select(items) => items[ii].expr.clone(),
+        Step::Filter(e) => e.clone(),
+        _ => return false,
+    };
     // parameters = distinct column leaves
     let mut cols: Vec<ColRef> = vec![];
     expr.walk(&mut |x| {
@@ -300,12 +317,17 @@ fn r3(t: &mut Tape, prog: &mut Prog) -> bool {
     } else {
         vec![]
     };
-    items[ii].expr = Expr::Call {
+    let call = Expr::Call {
         func: fi,
         args,
         named,
         style,
     };
+    match &mut prog.main.steps[si] {
+        Step::Derive(items) | Step::Select(items) => items[ii].expr = call,
+        Step::Filter(e) => *e = call,
+        _ => return false,
+    }
     true
 }
 
